@@ -1,0 +1,19 @@
+//go:build verif
+// +build verif
+
+package tl
+
+import "reflect"
+
+// VerifRegistry returns copies of the constructor registry (verification hook, build tag verif).
+func VerifRegistry() (objects map[uint32]reflect.Type, enums map[uint32]struct{}) {
+	objects = make(map[uint32]reflect.Type, len(objectByCrc))
+	for k, v := range objectByCrc {
+		objects[k] = v
+	}
+	enums = make(map[uint32]struct{}, len(enumCrcs))
+	for k := range enumCrcs {
+		enums[k] = struct{}{}
+	}
+	return objects, enums
+}
